@@ -38,12 +38,15 @@ IsC(k) == k \in {"M", "O", "A"}
 Deliverable(k) == k # "A"
 IsQ(k) == k \in {"Q", "E"}
 IsCh(k) == k \in {"CM", "CO"}
+\* "CR": a channel update that carries the channel pts but no count (read mark): it never moves the position; it must
+\* reach the handler when a channel difference carries it
+IsCR(k) == k = "CR"
 
 VARIABLES log, produced, c, handledRun, handledEver, tl, chBase, cover,
-          npush, ncrash, quiesced, bad,
+          npush, ncrash, quiesced, bad, offered, cancelled,
           act, hist
-vars == <<log, produced, c, handledRun, handledEver, tl, chBase, cover, npush, ncrash, quiesced, bad, act, hist>>
-View == <<log, produced, c, handledRun, handledEver, tl, chBase, cover, npush, ncrash, quiesced, bad>>
+vars == <<log, produced, c, handledRun, handledEver, tl, chBase, cover, npush, ncrash, quiesced, bad, offered, cancelled, act, hist>>
+View == <<log, produced, c, handledRun, handledEver, tl, chBase, cover, npush, ncrash, quiesced, bad, offered, cancelled>>
 
 Mx(a, b) == IF a > b THEN a ELSE b
 CPosL(l, i) == Cardinality({j \in 1..i : IsC(l[j])})
@@ -145,12 +148,12 @@ HandleQts(cc, i, via) ==
 HandleChannel(cc, i) ==
   IF cc.tracked THEN [cc EXCEPT !.chq = Append(@, i)]
   ELSE LET found == cc.stor.ch # -1
-           lp == IF found THEN cc.stor.ch ELSE ChPos(i) - 1
+           lp == IF found THEN cc.stor.ch ELSE (IF IsCR(log[i]) THEN ChPos(i) ELSE ChPos(i) - 1)
            c1 == IF found THEN cc ELSE SetStor(cc, "ch", lp)
        IN [c1 EXCEPT !.tracked = TRUE, !.chSub = TRUE, !.ch = NewBox(lp), !.chq = Append(@, i)]
 
 \* applyCombined handles updates sorted: common pts, then qts, then channel
-TypeRank(k) == IF IsC(k) THEN 1 ELSE IF IsQ(k) THEN 2 ELSE 3
+TypeRank(k) == IF IsC(k) THEN 1 ELSE IF IsQ(k) THEN 2 ELSE 3    \* CM, CO, CR: channel
 SortIds(ids) == SelectSeq(ids, LAMBDA i : TypeRank(log[i]) = 1) \o SelectSeq(ids, LAMBDA i : TypeRank(log[i]) = 2)
                 \o SelectSeq(ids, LAMBDA i : TypeRank(log[i]) = 3)
 
@@ -225,7 +228,7 @@ RECURSIVE ChanDifference(_, _)
 ChanDifference(cc, fuel) ==
   LET c0 == [cc EXCEPT !.ch.gaps = <<>>, !.chSub = FALSE]
       rp == c0.ch.st
-      P == SelectSeq([k \in 1..produced |-> k], LAMBDA i : IsCh(log[i]) /\ ChPos(i) > rp)
+      P == SelectSeq([k \in 1..produced |-> k], LAMBDA i : (IsCh(log[i]) \/ IsCR(log[i])) /\ ChPos(i) > rp)
   IN
   IF P = <<>> THEN
        LET c1 == [c0 EXCEPT !.evs = Append(@, [t |-> "diff", k |-> "ch", pts |-> rp, qts |-> 0, empty |-> TRUE])]
@@ -241,9 +244,10 @@ ChanDifference(cc, fuel) ==
        LET S == IF ChanLim = 0 \/ Len(P) <= ChanLim THEN P ELSE SubSeq(P, 1, ChanLim)
            final == Len(S) = Len(P)
            np == ChPos(S[Len(S)])
-           oth == SelectSeq(S, LAMBDA i : log[i] = "CO")
+           oth == SelectSeq(S, LAMBDA i : log[i] \in {"CO", "CR"})
            msgs == SelectSeq(S, LAMBDA i : log[i] = "CM")
-           c1 == [c0 EXCEPT !.evs = Append(@, [t |-> "diff", k |-> "ch", pts |-> np, qts |-> 0, empty |-> FALSE])]
+           crs == {S[j] : j \in {x \in 1..Len(S) : log[S[x]] = "CR"}}
+           c1 == [c0 EXCEPT !.evs = Append(@, [t |-> "diff", k |-> "ch", pts |-> np, qts |-> 0, empty |-> FALSE, cr |-> crs])]
            c2 == IF oth = <<>> \/ Fixed THEN c1 ELSE [c1 EXCEPT !.iq = Append(@, oth)]
            c3 == IF Fixed THEN Dispatch(c2, msgs \o oth, "diff")
                  ELSE IF msgs = <<>> THEN c2 ELSE Dispatch(c2, msgs, "diff")
@@ -261,7 +265,7 @@ ChanTooLong(cc, item) ==
 ChanStep(cc) ==
   IF Head(cc.chq) < 0 THEN ChanTooLong(cc, Head(cc.chq)) ELSE
   LET i == Head(cc.chq)
-      r == BoxHandle(cc.ch, [s |-> ChPos(i) - 1, e |-> ChPos(i), id |-> i])
+      r == BoxHandle(cc.ch, [s |-> IF IsCR(log[i]) THEN ChPos(i) ELSE ChPos(i) - 1, e |-> ChPos(i), id |-> i])
       c1 == [cc EXCEPT !.ch = r.b, !.chq = Tail(@)] IN
   IF r.acc = <<>> THEN c1 ELSE SetStor(Dispatch(c1, Ids(r.acc), "push"), "ch", r.st)
 
@@ -290,13 +294,13 @@ Restart(cc) ==
 
 \* ------------------------------------------------------------ observable effects of an event list
 \* state of the observer: handled-this-run, handled-ever, too-long flags, channel base, cover, stor
-Obs0(cc) == [hr |-> handledRun, he |-> handledEver, tl |-> tl, cb |-> chBase, cov |-> cover, stor |-> c.stor, bad |-> bad]
+Obs0(cc) == [hr |-> handledRun, he |-> handledEver, tl |-> tl, cb |-> chBase, cov |-> cover, stor |-> c.stor, bad |-> bad, off |-> offered]
 
 Covered(o, i) ==
   IF IsC(log[i]) THEN CPos(i) <= o.cov.pts \/ o.tl.c
   ELSE IF IsQ(log[i]) THEN QPos(i) <= o.cov.qts \/ o.tl.c
   ELSE ChPos(i) <= o.cov.ch \/ ChPos(i) <= o.cb \/ o.tl.ch
-SameSeq(i, j) == (IsC(log[i]) /\ IsC(log[j])) \/ (IsQ(log[i]) /\ IsQ(log[j])) \/ (IsCh(log[i]) /\ IsCh(log[j]))
+SameSeq(i, j) == (IsC(log[i]) /\ IsC(log[j])) \/ (IsQ(log[i]) /\ IsQ(log[j])) \/ (IsCh(log[i]) /\ IsCh(log[j]))   \* CR is in none
 
 \* C03: nothing the storage covers is undelivered
 PersistOK(o) ==
@@ -308,8 +312,8 @@ PersistOK(o) ==
 ApplyEv(o, e) ==
   IF e.t = "h" THEN
       LET ids == {e.ids[k] : k \in 1..Len(e.ids)}
-          dup == \E i \in ids : i \in o.hr
-          ooo == e.via = "push" /\ \E i \in ids : \E j \in 1..(i - 1) :
+          dup == \E i \in ids : i \in o.hr /\ ~IsCR(log[i])
+          ooo == e.via = "push" /\ \E i \in ids : ~IsCR(log[i]) /\ \E j \in 1..(i - 1) :
                     SameSeq(i, j) /\ Deliverable(log[j]) /\ j \notin (o.hr \cup ids) /\ ~Covered(o, j)
       IN [o EXCEPT !.hr = @ \cup ids, !.he = @ \cup ids,
                    !.bad = IF dup THEN @ \cup {"dup"} ELSE IF ooo THEN @ \cup {"order"} ELSE @]
@@ -322,7 +326,7 @@ ApplyEv(o, e) ==
       [o1 EXCEPT !.bad = IF PersistOK(o1) THEN @ ELSE @ \cup {"persist"}]
   ELSE IF e.t = "diff" THEN
       IF e.k = "c" THEN [o EXCEPT !.cov.pts = Mx(@, e.pts), !.cov.qts = Mx(@, e.qts)]
-      ELSE [o EXCEPT !.cov.ch = Mx(@, e.pts)]
+      ELSE [o EXCEPT !.cov.ch = Mx(@, e.pts), !.off = @ \cup (IF "cr" \in DOMAIN e THEN e.cr ELSE {})]
   ELSE IF e.t = "tl" THEN [o EXCEPT !.tl[e.k] = TRUE]
   ELSE o
 
@@ -334,6 +338,7 @@ Commit(c2, a) ==
   LET o == ApplyEvs(Obs0(c), c2.evs, 1, Len(c2.evs)) IN
   /\ c' = [c2 EXCEPT !.evs = <<>>]
   /\ handledRun' = o.hr /\ handledEver' = o.he /\ tl' = o.tl /\ chBase' = o.cb /\ cover' = o.cov /\ bad' = o.bad
+  /\ offered' = o.off /\ UNCHANGED cancelled
   /\ act' = [a EXCEPT !.post = [pts |-> c2.pts, qts |-> c2.qts, seq |-> c2.seq, ch |-> c2.ch, tracked |-> c2.tracked,
                                 chq |-> Len(c2.chq), iq |-> Len(c2.iq), stor |-> c2.stor],
                       !.nev = Len(c2.evs)]
@@ -348,6 +353,7 @@ CrashCommit(c2, k, a) ==
   IN
   /\ c' = [cr EXCEPT !.evs = <<>>]
   /\ handledRun' = o2.hr /\ handledEver' = o2.he /\ tl' = o2.tl /\ chBase' = o2.cb /\ cover' = o2.cov /\ bad' = o2.bad
+  /\ offered' = o2.off /\ cancelled' = FALSE
   /\ act' = [a EXCEPT !.crash = k,
                       !.post = [pts |-> cr.pts, qts |-> cr.qts, seq |-> cr.seq, ch |-> cr.ch, tracked |-> cr.tracked,
                                 chq |-> 0, iq |-> 0, stor |-> cr.stor],
@@ -369,11 +375,12 @@ Produce ==
   /\ produced' = produced + 1
   /\ act' = A("produce", produced + 1, FALSE) /\ hist' = Append(hist, act')
   /\ quiesced' = FALSE
-  /\ UNCHANGED <<log, c, handledRun, handledEver, tl, chBase, cover, npush, ncrash, bad>>
+  /\ UNCHANGED <<log, c, handledRun, handledEver, tl, chBase, cover, npush, ncrash, bad, offered, cancelled>>
 
 Push(i, ws) ==
   /\ npush < MaxPush /\ i <= produced /\ log[i] # "A"
-  /\ ws => (UseSeq /\ ~IsCh(log[i]))
+  /\ (cancelled => ~IsCh(log[i]) /\ ~IsCR(log[i]))
+  /\ ws => (UseSeq /\ ~IsCh(log[i]) /\ ~IsCR(log[i]))
   /\ Len(c.chq) < 8 /\ Len(c.iq) < 8
   /\ npush' = npush + 1
   /\ Body(HandleUpdates(c, <<i>>, IF ws THEN SeqNo(i) ELSE 0, "push"), A("push", i, ws))
@@ -381,7 +388,7 @@ Push(i, ws) ==
 
 \* two updates in one envelope (seq 0)
 Push2(i, j) ==
-  /\ npush < MaxPush /\ i < j /\ j <= produced /\ log[i] # "A" /\ log[j] # "A"
+  /\ npush < MaxPush /\ i < j /\ j <= produced /\ log[i] # "A" /\ log[j] # "A" /\ ~cancelled
   /\ Len(c.chq) < 7 /\ Len(c.iq) < 8
   /\ npush' = npush + 1
   /\ Body(HandleUpdates(c, <<i, j>>, 0, "push"), A("push2", i, FALSE) @@ [j |-> j])
@@ -396,7 +403,7 @@ PushAffected(i) ==
 
 \* updateChannelTooLong pushed for the tracked channel, with or without the server's current pts
 PushChanTooLong(wp) ==
-  /\ ChanTLPush /\ npush < MaxPush /\ Len(c.chq) < 8
+  /\ ChanTLPush /\ ~cancelled /\ npush < MaxPush /\ Len(c.chq) < 8
   /\ npush' = npush + 1
   /\ Body(IF c.tracked THEN [c EXCEPT !.chq = Append(@, IF wp THEN 0 - (2 + ChPos(produced)) ELSE -1)] ELSE c,
           A("chantl", ChPos(produced), wp))
@@ -432,10 +439,25 @@ Quiesce ==
   /\ BodyQ(FullRecover(c), A("quiesce", 0, FALSE), TRUE)
   /\ UNCHANGED <<log, produced, npush>>
 
+\* shutdown: the manager context is cancelled; bodies already queued may still run; then the process exits and is
+\* restarted from storage.  Nothing in a body depends on the context, so the events are the same.
+Cancel ==
+  /\ ~cancelled /\ ncrash < MaxCrash
+  /\ cancelled' = TRUE
+  /\ act' = A("cancel", 0, FALSE) /\ hist' = Append(hist, act') /\ quiesced' = FALSE
+  /\ UNCHANGED <<log, produced, c, handledRun, handledEver, tl, chBase, cover, npush, ncrash, bad, offered>>
+RestartA ==
+  /\ cancelled
+  /\ CrashCommit([c EXCEPT !.evs = <<>>], 0, A("restart", 0, FALSE))
+  /\ ncrash' = ncrash + 1 /\ quiesced' = FALSE
+  /\ UNCHANGED <<log, produced, npush>>
+
 Logs == UNION {[1..n -> Kinds] : n \in 1..MaxLog}
 
 Init ==
   /\ log \in Logs
+  /\ \A i \in 1..Len(log) : IsCR(log[i]) => ChPosL(log, i) >= 1     \* no server sends a channel pts of 0
+  /\ offered = {} /\ cancelled = FALSE
   /\ produced = 0
   /\ c = [pts |-> NewBox(0), qts |-> NewBox(0), seq |-> NewBox(0), ch |-> NewBox(0),
           tracked |-> Tracked0, chSub |-> Tracked0, chq |-> <<>>, iq |-> <<>>,
@@ -452,7 +474,8 @@ Next ==
   \/ (\E wp \in BOOLEAN : PushChanTooLong(wp))
   \/ Produce
   \/ \E i \in 1..MaxLog : \E ws \in BOOLEAN : Push(i, ws)
-  \/ Recover \/ ChanSub \/ ChanRecover \/ ChanStepA \/ Internal \/ Quiesce
+  \/ (~cancelled /\ (Recover \/ ChanSub \/ ChanRecover \/ ChanStepA \/ Internal \/ Quiesce))
+  \/ Cancel \/ RestartA
 
 NextPairs == Next \/ \E i, j \in 1..MaxLog : Push2(i, j)
 
@@ -468,6 +491,7 @@ InOrder == "order" \notin bad
 NoLoss ==
   quiesced => \A i \in 1..produced :
      \/ i \in handledEver \/ ~Deliverable(log[i])
+     \/ (IsCR(log[i]) /\ i \notin offered)
      \/ (IsCh(log[i]) /\ (~c.tracked \/ ChPos(i) <= chBase \/ tl.ch))
      \/ (~IsCh(log[i]) /\ tl.c)
 \* after a completed recovery the client is level with the server
